@@ -487,6 +487,10 @@ type rfcPeer struct {
 	dlog   *sessLog
 	stop   chan struct{}
 	done   chan struct{}
+	// passive (RFC 5880 6.1): sends nothing until it has accepted a packet for its session
+	passive, started bool
+	// forceDown: the peer is going away - it reports Down (Detect Mult 1) whatever it receives
+	forceDown bool
 }
 
 // Send is the link from the session under test to the peer.
@@ -501,6 +505,10 @@ func (p *rfcPeer) Send(pkt *layers.BFD) error {
 		return nil
 	}
 	if your == 0 && st != 1 && st != 0 {
+		return nil
+	}
+	p.started = true
+	if p.forceDown {
 		return nil
 	}
 	p.rd = my
@@ -536,16 +544,20 @@ func (p *rfcPeer) run() {
 		if p.state >= 2 && !p.lastRx.IsZero() && time.Since(p.lastRx) > p.det {
 			p.state, p.rd = 1, 0
 		}
-		if time.Now().Before(next) {
+		if time.Now().Before(next) || (p.passive && !p.started) {
 			p.mu.Unlock()
 			continue
+		}
+		mult := layers.BFDDetectMultiplier(5)
+		if p.forceDown {
+			p.state, mult = 1, 1
 		}
 		tx := layers.BFDTimeInterval(1_000_000)
 		if p.state == 3 {
 			tx = 100_000
 		}
 		next = time.Now().Add(bfdDur(tx) * 9 / 10)
-		pkt := &layers.BFD{Version: 1, State: layers.BFDState(p.state), DetectMultiplier: 5,
+		pkt := &layers.BFD{Version: 1, State: layers.BFDState(p.state), DetectMultiplier: mult,
 			MyDiscriminator: layers.BFDDiscriminator(p.disc), YourDiscriminator: layers.BFDDiscriminator(p.rd),
 			DesiredMinTxInterval: tx, RequiredMinRxInterval: 100_000}
 		p.mu.Unlock()
@@ -576,7 +588,7 @@ func (w *swapSender) Send(p *layers.BFD) error {
 
 // runRfcPeer: scenario 0 = undisturbed; 1 = before the peer appears the session receives one packet
 // with a My Discriminator nobody owns; 2 = the session comes Up with a first peer, which is then
-// replaced by a freshly started one with a new discriminator (a restart).
+// replaced by a freshly started one with a new discriminator (a restart); 3 = see below.
 func runRfcPeer(id, scenario int) []vt.M {
 	const own, d1, d2 = 0x5151, 0x6161, 0x7171
 	l := newLog(own, d1)
@@ -587,14 +599,15 @@ func runRfcPeer(id, scenario int) []vt.M {
 	defer logs.Delete(s)
 	done := make(chan error, 1)
 	go func() { done <- s.Run(context.Background()) }()
-	mkPeer := func(d uint32) *rfcPeer {
-		p := &rfcPeer{state: 1, disc: d, dst: s, dlog: l, stop: make(chan struct{}), done: make(chan struct{})}
+	mkPeerP := func(d uint32, passive bool) *rfcPeer {
+		p := &rfcPeer{state: 1, disc: d, dst: s, dlog: l, stop: make(chan struct{}), done: make(chan struct{}), passive: passive}
 		sw.mu.Lock()
 		sw.to = p
 		sw.mu.Unlock()
 		go p.run()
 		return p
 	}
+	mkPeer := func(d uint32) *rfcPeer { return mkPeerP(d, false) }
 	up := func() bool { l.mu.Lock(); defer l.mu.Unlock(); return l.lastLocal == 3 }
 	waitUp := func(d time.Duration) {
 		deadline := time.Now().Add(d)
@@ -624,6 +637,26 @@ func runRfcPeer(id, scenario int) []vt.M {
 		for time.Now().Before(deadline) && up() {
 			time.Sleep(5 * time.Millisecond)
 		}
+	case 3:
+		// the first peer goes away in an orderly fashion: it reports Down (the session follows without any
+		// timer) and falls silent; after the session's detection time has expired a freshly started
+		// PASSIVE peer with a new discriminator appears: it answers only packets it can accept, i.e. with
+		// Your Discriminator zero or its own
+		first := mkPeer(d1)
+		waitUp(30 * time.Second)
+		first.mu.Lock()
+		first.forceDown = true
+		first.mu.Unlock()
+		deadline := time.Now().Add(30 * time.Second)
+		for time.Now().Before(deadline) && up() {
+			time.Sleep(5 * time.Millisecond)
+		}
+		first.halt()
+		l.mu.Lock()
+		timers := l.ntimer
+		l.mu.Unlock()
+		l.waitFor(func() bool { return l.ntimer > timers }, 30*time.Second)
+		peer = mkPeerP(d2, true)
 	default:
 		peer = mkPeer(d1)
 	}
@@ -765,8 +798,8 @@ func main() {
 		}(i)
 	}
 	// a real session against a well-behaved RFC peer (three scenarios, concurrently)
-	rres := make([][]vt.M, 3)
-	for sc := 0; sc < 3; sc++ {
+	rres := make([][]vt.M, 4)
+	for sc := 0; sc < 4; sc++ {
 		pwg.Add(1)
 		go func(sc int) {
 			defer pwg.Done()
